@@ -65,6 +65,8 @@ def rule(rule_id, keep=None, drop=None):
 
 
 LOOKAHEAD = ['lookahead-no-boundary']
+# attribution only: findings of the grammar rules on the lexers of macro definitions and usages belong (also) to C05
+MACRO_LEXERS = [':macro_text:', ':default_text:', ':define_argument', ':actual_argument', ':text_macro_', ':list_of_actual_arguments', ':list_of_formal_arguments', ':formal_argument']
 
 PROPS = {
     'C01': {
@@ -264,7 +266,7 @@ PROPS = {
         'needs_mir': True,
     },
     'C08': {
-        'rules': [rule('P1'), rule('P2'), rule('S6'), rule('G13'), rule('X8'), rule('G2'), rule('G9')],
+        'rules': [rule('P1'), rule('P2'), rule('S6'), rule('G13'), rule('X8'), rule('G2'), rule('G9'), rule('G4', keep=['locate-field-assigned', 'locate-fields', 'concat-position'])],
         'explanation': 'Every panic-capable site of the five runtime crates (found on MIR: unwrap/expect, core::panicking, indexing, '
                        'RefCell borrows, Assert terminators) is put in a class and each class is discharged by a structural rule: '
                        'lexeme joins by G2 (adjacent by construction, many1 non-empty); Locate::try_from(&node).unwrap() by "the node '
@@ -379,7 +381,7 @@ PROPS = {
         'technique': 'named-parameter threading lint + per-handler emission classes under the flag',
     },
     'C05': {
-        'rules': [rule('X13'), rule('X18'), rule('X19'), rule('G16'), rule('G17', keep=['argument-string:']), rule('P3'), rule('X9'), rule('X10'), rule('X4', drop=['strip-', 'double-emission'])],
+        'rules': [rule('X13'), rule('X18'), rule('X19'), rule('G16'), rule('G17', keep=['argument-string:']), rule('G6', keep=MACRO_LEXERS), rule('P3'), rule('X9'), rule('X10'), rule('X4', drop=['strip-', 'double-emission'])],
         'explanation': 'NARROW claim: the structural clauses of macro expansion, the run-splitting of the macro body, the substitution loop with its '
                        'rewrite table and the nesting discipline of the argument lexer are decided; the expanded text as a value is not. '
                        'Misuse is reported by name: DefineNotFound carries the name that was used, DefineArgNotFound the formal that got '
